@@ -83,7 +83,7 @@ def random_long(exe, n, rnd):
 def main(tier):
     c = vlib.Check("C18")
     exe = vlib.build_harness()
-    maxsegs = 5 if tier == "quick" else 7
+    maxsegs = 5 if tier == "quick" else 6
     res, mism, summ = run_stream(exe, maxsegs, workers=8 if tier == "quick" else 14, timeout=600 if tier == "quick" else 3000)
     c.add_tlc(res)
     for inv in res.violated():
